@@ -599,3 +599,4 @@ def check(run, replay=None):
 
 # workloads added in seeding rounds 7-10 (DESIGN.md sections 13.9-13.12)
 LEVEL_TEXT = LEVEL_TEXT + ' Later additions: pk2d with omega and dty of different dtypes.'
+LEVEL_TEXT = LEVEL_TEXT + ' Round 11: DataSet.pk2d / pk4d after set_monitor with several reference values on one object.'
